@@ -14,7 +14,7 @@ RULE = ("trees {group of 2, group of 3 with a hard link, two groups, two --isola
         "mutation in {rewrite same length, rewrite other length, append, truncate, delete, delete+recreate same bytes, "
         "delete+recreate other bytes, replace by directory, by dangling symlink, by symlink to a fresh file, by symlink to an old file of the same length, replace by a named pipe, touch} x "
         "position: the external mutator is interleaved at EVERY event k (file-system read calls and clock reads) of the "
-        "recorded `group -t 1` run from the first access to f until process exit (quick: one position per phase), plus "
+        "recorded `group -t 1` run from the first access to f until process exit (quick: one position per phase), while the DEDUPE command itself is running (two groups with members in one old directory; the command is stopped at every call before it first touches f, quick: four positions), plus "
         "'between group and dedupe' (the pair tree also with both commands running in time zones UTC+9, UTC-8, UTC+5:30, and with the dedupe command running in another zone than `group`: +9 -> 0, 0 -> -8, -8 -> +9, +5:30 -> +4:30); then each dedupe op {remove, link, link --soft, dedupe, move} and {remove, link, move} x {-n 1, --rf-over 1, --priority newest, --no-lock, --keep-name <matches nothing>, --keep-name / --name / --keep-path patterns that protect one member} (quick: remove, link, remove -n 1, link --priority newest, and four protecting patterns) "
         "acts on the report that run produced. A state is one complete (group || mutator ; dedupe) execution, "
         "transitions are the events of the group history. Invariant: every content digest held by a regular file just "
@@ -79,7 +79,89 @@ def cases(tier, seed):
         for f in ("r/a/f1", "r/b/f2"):
             for m in (MUTATIONS if tier == "thorough" else ("rewrite_same_len", "recreate_other", "touch")):
                 out.append({"tree": "pair", "f": f, "mutation": m, "tier": tier, "tz": tz, "tz_dedupe": tz2})
+    # the change lands while the DEDUPE command is already running - after it has dealt with an earlier group, before
+    # it inspects the group of the changed file (both groups have members in the same directory)
+    for f in ("r/d/k1", "r/d/k2"):
+        for m in (MUTATIONS if tier == "thorough" else ("rewrite_same_len", "recreate_other", "to_symlink_old", "to_symlink_fresh", "delete", "to_directory")):
+            if m == "to_fifo":
+                continue
+            for op in (OPS if tier == "thorough" else ("remove", "link", "move")):
+                out.append({"kind": "during_dedupe", "tree": "same_dir", "f": f, "mutation": m, "op": op, "tier": tier})
     return out
+
+
+SAME_DIR = [{"p": "r/d/a1", "k": "file", "c": ["base", 9000, 1]}, {"p": "r/d/a2", "k": "file", "c": ["base", 9000, 1]},
+            {"p": "r/d/k1", "k": "file", "c": ["base", 3000, 2]}, {"p": "r/d/k2", "k": "file", "c": ["base", 3000, 2]},
+            {"p": "r/e/k3", "k": "file", "c": ["base", 3000, 2]}]
+
+
+def evaluate_during_dedupe(case):
+    """`group` on an undisturbed tree; the dedupe command is stopped at a call before it first touches f, f is changed, the
+    command continues. Whatever it then decides, no content present after the change may be lost."""
+    viol = []
+    states = 0
+    reached = []
+    with C.Scratch() as sc:
+        f_abs = sc.path(case["f"]).decode()
+        target = os.path.join(sc.root, "moved")
+
+        def rebuild():
+            C.rmtree(sc.tree)
+            C.rmtree(target)
+            os.makedirs(sc.tree)
+            C.make_tree(sc.tree, SAME_DIR)
+            # the directories are as old as the files (the tree is rebuilt for every position, after the report was made)
+            for d in ("r/d", "r/e", "r"):
+                os.utime(sc.path(d), (1_000_000_000, 1_000_000_000))
+        rebuild()
+        report = D.make_report(sc, [], ["r"])
+        time.sleep(0.03)
+        args = list(D.OPS[case["op"]]) + ([target] if case["op"] == "move" else [])
+        env = {"RAYON_NUM_THREADS": "1"}
+        rec = S.run_with_shim(sc, args, [sc.tree, target], "rm", stdin=report, env_extra=env)
+        ev = rec["events"]
+        touch = [i for i, e in enumerate(ev) if e.path == f_abs or e.path2 == f_abs]
+        if not touch:
+            raise C.MachineryError("the dedupe run never touches %s" % f_abs)
+        first = touch[0]
+        if case["tier"] == "quick":
+            positions = sorted(set([0, first // 2, max(0, first - 1), first]))
+        else:
+            positions = list(range(first + 1))
+        if case.get("only") is not None:
+            positions = [case["only"]]
+        for k in positions:
+            rebuild()
+            snap = {}
+
+            def change():
+                mutate(f_abs, case["mutation"], sc)
+                snap["before"] = C.inventory(sc.tree)
+            res = S.run_with_shim(sc, args, [sc.tree, target], "rm", stdin=report, env_extra=env, mode="pause", at=k, on_pause=change)
+            if not res["paused"]:
+                raise C.MachineryError("the dedupe command did not pause at event %d" % k)
+            before = snap["before"]
+            after = C.inventory(sc.tree, target) if os.path.exists(target) else C.inventory(sc.tree)
+            states += 1
+            reached.append(["during_dedupe", case["f"], case["mutation"], case["op"], k])
+            # what the command had already removed legitimately before the change is not in `before` any more
+            sb = set(x["sha"] for x in before.values() if x["type"] == "file")
+            sa = set(x["sha"] for x in after.values() if x["type"] == "file")
+            feat = {"mutation": case["mutation"], "phase": "during_the_dedupe_run", "op": case["op"],
+                    "target_is_retained_member": case["f"].endswith("k1"), "isolate": False, "report_from_stdout_fallback": False,
+                    "timezone": "UTC", "dedupe_in_other_timezone": False}
+            if "panicked" in res["err"] or res["timeout"]:
+                viol.append(dict(feat, kind="crash", detail=res["err"][-300:], replay_case=dict(case, only=k)))
+            if sb - sa:
+                who = sorted(p for p, x in before.items() if x.get("sha") in (sb - sa))
+                viol.append(dict(feat, kind="changed_data_removed",
+                                 detail="%s changed (%s) while `%s` was running - stopped at its event %d (%r), %d events before it first touches the file; "
+                                        "the command then destroyed the only copy of the content of %s" % (
+                                            case["f"], case["mutation"], case["op"], k, ev[k], first - k, who),
+                                 replay_case=dict(case, only=k)))
+    return {"violations": viol, "states": states, "transitions": states * 2, "evaluations": states, "nontrivial": reached,
+            "outcome": "explored", "counters": {"changes_during_the_dedupe_run": states},
+            "sample": {"during_dedupe": case["f"], "mutation": case["mutation"], "op": case["op"], "first_touch": first}}
 
 
 def mutate(path, m, scratch):
@@ -152,6 +234,8 @@ def mutate(path, m, scratch):
 
 
 def evaluate(case):
+    if case.get("kind") == "during_dedupe":
+        return evaluate_during_dedupe(case)
     tier = case.get("tier", "quick")
     viol = []
     states = 0
